@@ -11,6 +11,7 @@ struct KSI_CTX_st;
 struct peek_client {
 	size_t pending, received, cache_slots, occupied, request_count, request_count_offset, tail;
 	int has_server_conf, slot0;
+	const struct KSI_AsyncHandle_st *server_conf; /* the handle in the configuration slot (a pushed configuration or the user's configuration request) */
 };
 
 int peek_is_ha(const struct KSI_AsyncService_st *s);
